@@ -7,3 +7,4 @@ import Zeno.Props.C17
 import Zeno.Props.C14
 import Zeno.Props.C09
 import Zeno.Props.C15
+import Zeno.Props.C04
